@@ -222,6 +222,103 @@ example :
     clean false stmt = false ∧ clean false (rewrite c stmt).1 = true ∧ (rewrite c stmt).2.modified = true := by
   decide
 
+/-! #### the exclusion inside `no_nondet_left`, made explicit
+`clean` counts `randomblob(<number literal>)` as non-deterministic only for literals the rewriter
+replaces (`blobLen v ≠ none`). Whether a token is a number literal is decided by the real parser
+(node kind `number`), independently of `blobLen`; the full statement over ALL number literals is
+false, by design: a literal above SQLite's maximum blob length is left alone because SQLite rejects
+it on every node alike (exercised on real SQLite by the tie). -/
+
+/-- as `nondetCall`, but ANY number literal argument of randomblob counts -/
+def nondetCallAnyLit (u : Bool) (name : String) (args : Nodes) : Bool :=
+  match classify name with
+  | .randomblob => !u && (match args with | .cons (.lit "number" _) .nil => true | _ => false)
+  | _ => nondetCall u name args
+
+mutual
+def cleanAnyLit (u : Bool) : Node → Bool
+  | .call name args extra => !nondetCallAnyLit u name args && cleanAnyLitList u args && cleanAnyLitList u extra
+  | .lit _ _ => true
+  | .ident _ => true
+  | .ord kids => cleanAnyLitList true kids
+  | .ret kids => cleanAnyLitList u kids
+  | .other _ kids => cleanAnyLitList u kids
+def cleanAnyLitList (u : Bool) : Nodes → Bool
+  | .nil => true
+  | .cons n ns => cleanAnyLit u n && cleanAnyLitList u ns
+end
+
+/-- THE FULL STATEMENT over every number literal (false: see the witness) -/
+def no_nondet_left_full : Prop :=
+  ∀ (c : Cfg), c.rwRand = true → c.rwTime = true → ∀ n, cleanAnyLit false (rewrite c n).1 = true
+
+theorem no_nondet_left_witness :
+    cleanAnyLit false (rewrite ⟨true, true, fun _ => 0, "0"⟩
+      (.call "randomblob" (.cons (.lit "number" "99999999999") .nil) .nil)).1 = false := by decide
+
+theorem no_nondet_left_full_is_false : ¬ no_nondet_left_full := by
+  intro h
+  have := h ⟨true, true, fun _ => 0, "0"⟩ rfl rfl (.call "randomblob" (.cons (.lit "number" "99999999999") .nil) .nil)
+  rw [no_nondet_left_witness] at this
+  cases this
+
+/-- what the exclusion amounts to, for the decimal integer literals: the rewriter leaves
+`randomblob(<digits>)` alone exactly when the number exceeds SQLite's maximum blob length -/
+theorem takeWhile_all {α} (p : α → Bool) (l : List α) (h : ∀ x ∈ l, p x = true) : l.takeWhile p = l := by
+  induction l with
+  | nil => rfl
+  | cons a l ih => simp [List.takeWhile_cons, h a (by simp), ih (fun x hx => h x (by simp [hx]))]
+
+theorem dropWhile_all {α} (p : α → Bool) (l : List α) (h : ∀ x ∈ l, p x = true) : l.dropWhile p = [] := by
+  induction l with
+  | nil => rfl
+  | cons a l ih => simp [List.dropWhile_cons, h a (by simp), ih (fun x hx => h x (by simp [hx]))]
+
+theorem digit_not_special (ch : Char) (h : '0' ≤ ch ∧ ch ≤ '9') : ch ≠ '.' ∧ ch ≠ 'e' ∧ ch ≠ 'E' := by
+  refine ⟨?_, ?_, ?_⟩ <;> (intro heq; subst heq; revert h; decide)
+
+theorem left_alone_decimal_is_too_big (cs : List Char) (n : Nat) (hne : cs ≠ [])
+    (hdig : ∀ ch ∈ cs, '0' ≤ ch ∧ ch ≤ '9')
+    (hd : digitsVal cs = some n) : blobLen (String.ofList cs) = none ↔ n > maxBlobLength := by
+  unfold blobLen
+  simp only [String.toList_ofList]
+  have he : cs.isEmpty = false := by cases cs <;> simp_all
+  simp only [he, Bool.false_eq_true, if_false, hd]
+  by_cases h64 : n ≤ int64Max
+  · simp only [h64, if_true, Option.bind_some]
+    by_cases hb : n > maxBlobLength <;> simp [hb]
+  · simp only [h64, if_false]
+    have hbig : n > maxBlobLength := by unfold int64Max at h64; unfold maxBlobLength; omega
+    constructor
+    · intro _; exact hbig
+    · intro _
+      cases hf : floatBytes cs with
+      | none => rfl
+      | some m =>
+        -- floatBytes only returns values ≤ maxBlobLength, which the final bound lets through;
+        -- but the literal's value is n > maxBlobLength, so floatBytes cannot have accepted it
+        exfalso
+        unfold floatBytes at hf
+        have hp : parseDecimal cs = some (n, 0) := by
+          unfold parseDecimal
+          have hnoDot : ∀ ch ∈ cs, ch ≠ '.' ∧ ch ≠ 'e' ∧ ch ≠ 'E' := fun ch hch => digit_not_special ch (hdig ch hch)
+          have hnoE : cs.any (fun ch => ch == 'e' || ch == 'E') = false := by
+            rw [List.any_eq_false]; intro ch hch; have := hnoDot ch hch; simp [this.2.1, this.2.2]
+          have h1 : cs.takeWhile (fun ch => ch != 'e' && ch != 'E') = cs := by
+            apply takeWhile_all; intro ch hch; have := hnoDot ch hch; simp [this.2.1, this.2.2]
+          have h2 : cs.dropWhile (fun ch => ch != 'e' && ch != 'E') = [] := by
+            apply dropWhile_all; intro ch hch; have := hnoDot ch hch; simp [this.2.1, this.2.2]
+          have h3 : cs.takeWhile (· != '.') = cs := by
+            apply takeWhile_all; intro ch hch; have := hnoDot ch hch; simp [this.1]
+          have h4 : cs.dropWhile (· != '.') = [] := by
+            apply dropWhile_all; intro ch hch; have := hnoDot ch hch; simp [this.1]
+          have hd0 : digitsVal ([] : List Char) = some 0 := rfl
+          simp only [h1, h2, h3, h4, hnoE, he, List.drop_nil, List.isEmpty_nil, List.append_nil, Bool.false_and,
+            Bool.false_eq_true, if_false, hd, List.length_nil, hd0]
+          rfl
+        simp [hp] at hf
+        omega
+
 /-! ### nothing else changes -/
 
 /-- The rewritten statement differs from the original ONLY by the replacements the property asks
@@ -462,6 +559,90 @@ theorem prefilter_complete (pre q rest : List Char) (hq : ∀ ch ∈ q, isSkip c
     rcases hfn with h | h <;> subst h
     · have := key [] "random".toList; simp_all
     · have := key [] "randomblob".toList; simp_all
+
+/-! ### Process level: filter, parser and rewriter together -/
+
+mutual
+theorem noTarget_clean : ∀ (n : Node) (u : Bool), noTarget n = true → clean u n = true
+  | .call name args extra, u, h => by
+    simp only [noTarget, Bool.and_eq_true, decide_eq_true_eq] at h
+    simp only [clean, nondetCall, h.1.1, Bool.not_false, Bool.true_and, Bool.and_eq_true]
+    exact ⟨noTargetList_clean args u h.1.2, noTargetList_clean extra u h.2⟩
+  | .lit _ _, _, _ => by simp [clean]
+  | .ident _, _, _ => by simp [clean]
+  | .ord kids, _, h => by simp only [noTarget] at h; simp only [clean]; exact noTargetList_clean kids true h
+  | .ret kids, u, h => by simp only [noTarget] at h; simp only [clean]; exact noTargetList_clean kids u h
+  | .other _ kids, u, h => by simp only [noTarget] at h; simp only [clean]; exact noTargetList_clean kids u h
+theorem noTargetList_clean : ∀ (ns : Nodes) (u : Bool), noTargetList ns = true → cleanList u ns = true
+  | .nil, _, _ => by simp [cleanList]
+  | .cons n ns, u, h => by
+    simp only [noTargetList, Bool.and_eq_true] at h
+    simp only [cleanList, Bool.and_eq_true]
+    exact ⟨noTarget_clean n u h.1, noTargetList_clean ns u h.2⟩
+end
+
+def nineNames : List String :=
+  ["date", "time", "datetime", "julianday", "unixepoch", "strftime", "timediff", "random", "randomblob"]
+
+/-- The parser (and `strings.ToLower`) as a parameter with ONE assumed law, a fact about tokenising
+SQL: when a parsed statement holds a call to one of the nine functions, the lower-cased text holds
+that function's name followed - after closing quote characters and white space only - by `(` or
+by the start of a comment. -/
+structure TextSem where
+  parse : String → Option (List Node)
+  lowered : String → List Char
+  call_shape : ∀ text trees n, parse text = some trees → n ∈ trees → noTarget n = false →
+    ∃ fn ∈ nineNames, ∃ pre q rest, lowered text = pre ++ (fn.toList ++ (q ++ rest)) ∧
+      (∀ ch ∈ q, isSkip ch = true) ∧ opensCall rest = true
+
+/-- the statements `Process` replicates for a text, as trees: rewritten when the pre-filters let the
+text through (`other` = the RETURNING / EXPLAIN filters), untouched otherwise; `none` = the parser
+rejects the text (passed through unchanged by design) -/
+def processTrees (c : Cfg) (P : TextSem) (other : Bool) (text : String) : Option (List Node) :=
+  (P.parse text).map fun trees =>
+    if containsCall timeTargets (P.lowered text) || containsCall randTargets (P.lowered text) || other
+    then trees.map fun n => (rewrite c n).1
+    else trees
+
+/-- Process-level statement: for every text the parser accepts, every statement that is replicated
+is free of non-deterministic calls - whether the pre-filter let the text through (then by
+`no_nondet_left`) or not (then, by the tokenising law and `prefilter_complete`, it held no call to
+any of the nine functions in the first place). -/
+theorem process_no_nondet_left (c : Cfg) (hr : c.rwRand = true) (ht : c.rwTime = true)
+    (P : TextSem) (other : Bool) (text : String) (out : List Node)
+    (h : processTrees c P other text = some out) : ∀ n ∈ out, clean false n = true := by
+  unfold processTrees at h
+  cases hp : P.parse text with
+  | none => simp [hp] at h
+  | some trees =>
+    simp only [hp, Option.map_some, Option.some.injEq] at h
+    intro n hn
+    split at h
+    · subst h
+      simp only [List.mem_map] at hn
+      obtain ⟨m, _, rfl⟩ := hn
+      exact no_nondet_left c hr ht m
+    · rename_i hf
+      subst h
+      simp only [Bool.or_eq_true, not_or, Bool.not_eq_true] at hf
+      by_cases hnt : noTarget n = true
+      · exact noTarget_clean n false hnt
+      · exfalso
+        obtain ⟨fn, hfn, pre, q, rest, hl, hq, hrr⟩ :=
+          P.call_shape text trees n hp hn (by simpa using hnt)
+        obtain ⟨h1, h2⟩ := prefilter_complete pre q rest hq hrr
+        simp only [nineNames, List.mem_cons, List.mem_nil_iff, or_false] at hfn
+        rw [hl] at hf
+        rcases hfn with h | h | h | h | h | h | h | h | h <;> subst h
+        · have := h1 "date" (by simp); rw [this] at hf; simp at hf
+        · have := h1 "time" (by simp); rw [this] at hf; simp at hf
+        · have := h1 "datetime" (by simp); rw [this] at hf; simp at hf
+        · have := h1 "julianday" (by simp); rw [this] at hf; simp at hf
+        · have := h1 "unixepoch" (by simp); rw [this] at hf; simp at hf
+        · have := h1 "strftime" (by simp); rw [this] at hf; simp at hf
+        · have := h1 "timediff" (by simp); rw [this] at hf; simp at hf
+        · have := h2 "random" (by simp); rw [this] at hf; simp at hf
+        · have := h2 "randomblob" (by simp); rw [this] at hf; simp at hf
 
 example : containsRandom "insert into t values(random /* x */ ())" = true ∧
     containsTime "select \"datetime\" ('now')" = true ∧
